@@ -86,6 +86,13 @@ Definition decls_of (evs : list event) : list decl :=
 Definition lead_ending (leads : list group) (file : N) (line : Z) : option group :=
   find (fun g => N.eqb (p_file (g_pos g)) file && Z.eqb (g_end g) line) leads.
 
+(* the lines of the stand-alone comment group that ends on the line above (nothing if none) *)
+Definition doc_lines_above (leads : list group) (file : N) (line : Z) : list bytes :=
+  match lead_ending leads file (line - 1) with
+  | Some g => spec_lines (g_text g)
+  | None => []
+  end.
+
 Definition same_line (a c : pos) : Prop := p_file a = p_file c /\ p_line a = p_line c.
 
 (* Well-formed layouts: facts about go/parser's attachment of comments and about the order in
